@@ -102,7 +102,7 @@ def _cancel_programs(tier: str):
 
 
 def explore_config(tier: str, program) -> dict:
-    return {"cap": 20000}
+    return {"cap": 400000}
 
 
 def execute(program, ch: Chooser) -> Result:  # noqa: C901, PLR0912, PLR0915
